@@ -364,6 +364,8 @@ impl<'p> ThunkData<'p> {
         let mut state = self.state.borrow_mut();
         if let ThunkState::InProgress(ref pending) = *state {
             let pending = pending.clone();
+            #[cfg(rsjsonnet_verif)]
+            crate::verif::emit(|| crate::verif::Event::ThunkRestore { id: self.verif_id });
             *state = ThunkState::Pending(pending);
         }
     }
